@@ -131,9 +131,13 @@ def numberEnd (inp : Input) (p1 : Nat) : Kw × Nat :=
   let isFloat := r == 46 || hasExp
   if isFloat && q < inp.size then
     let q1 := q + 1
-    let q2 := scanWhile inp isDigit fuel q1
-    if hasExp then (.float, q2)
+    if hasExp then
+      -- IntegerPart ExponentPart: an optional sign follows the exponent indicator
+      let sg0 := byteAt inp q1
+      let q1' := if (sg0 == 45 || sg0 == 43) && q1 < inp.size then q1 + 1 else q1
+      (.float, scanWhile inp isDigit fuel q1')
     else
+    let q2 := scanWhile inp isDigit fuel q1
       let e := byteAt inp q2
       let q3 := if (e == 101 || e == 69) && q2 < inp.size then q2 + 1 else q2
       let sg := byteAt inp q3
